@@ -96,9 +96,14 @@ def may_dataflow(g, init, effect):
     return ieg.forward(g, frozenset(init), transfer, lambda a, b: a | b)
 
 
-def zero_test(de):
+def zero_test(de, dty=None):
     """If a switch discriminant compares a value with 0: (value expr, verdict for case 0, verdict otherwise)
-    with verdicts in {'zero','nonzero'}."""
+    with verdicts in {'zero','nonzero'}.  `dty` (the type switched on) lets a direct `match n { 0 => .., _ => .. }` on an
+    integer count as the same test."""
+    if dty in ("usize", "u64", "u32", "u16", "u8") and de is not None:
+        d0 = ir.peel(de, casts=False)
+        if d0[0] not in ('bin', 'un', 'discr', 'const', 'constdef'):
+            return de, 'zero', 'nonzero'
     de = ir.peel(de, casts=False)
     flip = False
     while de[0] == 'un' and de[1] == 'Not':
